@@ -1,4 +1,4 @@
-//@ unit u2_verdicts props C01 C02 C08 C12 also C06
+//@ unit u2_verdicts props C01 C02 C08 C12 also C06 C10
 // Unit U2: the verdict functions of src/database/authorisation_service.rs.
 // The room decision kernel (unit u1_room) is visible here only through the contracts proved there.
 #![feature(allocator_api)]
@@ -29,6 +29,7 @@ pub enum Error {
     UpdateNotAllowed(),
     ForbiddenRoomId(String),
     NotBelongsTo(),
+    Query(String),
 }
 pub type Result<T> = std::result::Result<T, Error>;
 impl From<Box<bincode::ErrorKind>> for Error {
@@ -138,6 +139,17 @@ pub closed spec fn needed(old_author: Option<Vec<u8>>, author: Vec<u8>) -> Right
     match old_author { Some(k) => if k@ =~= author@ { RightType::MutateSelf } else { RightType::MutateAll }, None => RightType::MutateSelf }
 }
 pub closed spec fn opt_str(o: Option<String>) -> Seq<char> { match o { Some(s) => s@, None => Seq::<char>::empty() } }
+pub closed spec fn is_auth_entity(e: Seq<char>) -> bool {
+    e == system_entities::AUTHORISATION_ENT@ || e == system_entities::ENTITY_RIGHT_ENT@ || e == system_entities::USER_AUTH_ENT@
+}
+pub closed spec fn is_system_entity(e: Seq<char>) -> bool {
+    e == system_entities::ROOM_ENT@ || is_auth_entity(e)
+}
+/// `Option<String>::as_deref()` (rule E24: the std call is replaced by this stub): std semantics - the same text, borrowed
+#[verifier::external_body]
+pub fn option_string_as_deref(o: &Option<String>) -> (r: Option<&str>)
+    ensures (o is Some) == (r is Some), o is Some ==> r->Some_0@ == o->Some_0@
+{ unimplemented!() }
 
 /// C02 for a node received from a peer
 pub closed spec fn spec_validate_node(ra: RoomAuthorisations, n: NodeToInsert) -> bool {
@@ -145,6 +157,8 @@ pub closed spec fn spec_validate_node(ra: RoomAuthorisations, n: NodeToInsert) -
         let node = n.node->Some_0;
         (bincode::spec_size(node) is Some && bincode::spec_size(node)->Some_0 <= ra.max_node_size)
         && node.room_id is Some && n.entity_name is Some
+        // the rows that define a room (room, group, right and user entries) never travel as ordinary rows: C07's entries change only through a room definition
+        && !is_system_entity(opt_str(n.entity_name))
         && ra.rooms@.contains_key(node.room_id->Some_0)
         && spec_can(ra.rooms@[node.room_id->Some_0], node.verifying_key, opt_str(n.entity_name), node.mdate, needed(n.old_verifying_key, node.verifying_key))
         && (n.old_room_id is Some && !(n.old_room_id->Some_0@ =~= node.room_id->Some_0@) ==>
@@ -155,6 +169,7 @@ pub closed spec fn spec_validate_node(ra: RoomAuthorisations, n: NodeToInsert) -
 
 //@ extract src/database/authorisation_service.rs :: impl RoomAuthorisations / fn validate_node
 //@ result r
+//@ rewrite E24 "node_to_insert\.entity_name\.as_deref\(\)" => "option_string_as_deref(&node_to_insert.entity_name)" x1
 //@ insert body-start
         proof {
             assert(<Vec<u8> as PartialEqSpec<Vec<u8>>>::obeys_eq_spec());
@@ -166,14 +181,15 @@ pub closed spec fn spec_validate_node(ra: RoomAuthorisations, n: NodeToInsert) -
             r == spec_validate_node(*self, *node_to_insert),
 //@ end
 
-/// C02 for a deletion record received from a peer: known entity, known room, and the room grants the record's
+/// C02 for a deletion record received from a peer: known entity that is not one of the entities defining a room (their rows and
+/// references are removed by nobody: C07), known room, and the room grants the record's
 /// author the needed right at the deletion date (all-rows right when the deleted row was authored by someone else)
 pub closed spec fn edge_del_ok(ra: RoomAuthorisations, d: EdgeDeletionEntry, row_author: Option<Vec<u8>>) -> bool {
-    d.entity_name is Some && ra.rooms@.contains_key(d.room_id)
+    d.entity_name is Some && !is_system_entity(opt_str(d.entity_name)) && ra.rooms@.contains_key(d.room_id)
     && spec_can(ra.rooms@[d.room_id], d.verifying_key, opt_str(d.entity_name), d.deletion_date, needed(row_author, d.verifying_key))
 }
 pub closed spec fn node_del_ok(ra: RoomAuthorisations, d: NodeDeletionEntry, row_author: Option<Vec<u8>>) -> bool {
-    d.entity_name is Some && ra.rooms@.contains_key(d.room_id)
+    d.entity_name is Some && !is_system_entity(opt_str(d.entity_name)) && ra.rooms@.contains_key(d.room_id)
     && spec_can(ra.rooms@[d.room_id], d.verifying_key, opt_str(d.entity_name), d.deletion_date, needed(row_author, d.verifying_key))
 }
 
@@ -183,7 +199,7 @@ pub closed spec fn node_del_ok(ra: RoomAuthorisations, d: NodeDeletionEntry, row
         proof { assert(<Vec<u8> as PartialEqSpec<Vec<u8>>>::obeys_eq_spec()); }
 //@ spec
         ensures
-            // [edge_deletion_kept_iff_entitled]{C02,C12} a reference-deletion record received from a peer is kept exactly when its entity and room are known and the room grants the record's author the needed right at the deletion date; nothing else is added to the result
+            // [edge_deletion_kept_iff_entitled]{C02,C12} a reference-deletion record received from a peer is kept exactly when its entity and room are known, the entity is not one that defines a room, and the room grants the record's author the needed right at the deletion date; nothing else is added to the result
             final(result)@ == (if edge_del_ok(*self, entry.0, entry.1) { old(result)@.push(entry.0) } else { old(result)@ }),
 //@ end
 
@@ -227,9 +243,6 @@ pub closed spec fn rooms_wf(ra: RoomAuthorisations) -> bool {
     forall|k: Uid| #[trigger] ra.rooms@.contains_key(k) ==> ra.rooms@[k].id == k
 }
 // ================================================================= local path (C01)
-pub closed spec fn is_auth_entity(e: Seq<char>) -> bool {
-    e == system_entities::AUTHORISATION_ENT@ || e == system_entities::ENTITY_RIGHT_ENT@ || e == system_entities::USER_AUTH_ENT@
-}
 pub closed spec fn old_author(t: NodeToMutate) -> Option<Vec<u8>> { match t.old_node { Some(o) => Some(o.verifying_key), None => None } }
 /// C01 for one data row submitted through the API (the row is `t.node`, its previous version `t.old_node`):
 /// size limit; in the room it enters the caller holds the needed right at the operation's date; and in the room it leaves too
@@ -331,9 +344,6 @@ impl RoomAuthorisations {
             final(entity_to_mutate).node_to_mutate.entity == old(entity_to_mutate).node_to_mutate.entity,
 //@ end
 
-pub closed spec fn is_system_entity(e: Seq<char>) -> bool {
-    e == system_entities::ROOM_ENT@ || is_auth_entity(e)
-}
 pub closed spec fn vk_of(ra: RoomAuthorisations) -> Vec<u8> { vec_of(ra.signing_key.spec_vk()) }
 pub closed spec fn own(author: Vec<u8>, caller: Seq<u8>) -> RightType { if author@ =~= caller { RightType::MutateSelf } else { RightType::MutateAll } }
 /// C01 / C12 for one row named in a deletion: not a system entity; if it belongs to a room, the room is known and grants the
@@ -352,7 +362,12 @@ pub closed spec fn edge_delete_ok(ra: RoomAuthorisations, ed: EdgeDelete, t: i64
     && (ed.room_id is Some ==> ra.rooms@.contains_key(ed.room_id->Some_0)
           && spec_can(ra.rooms@[ed.room_id->Some_0], vk_of(ra), ed.src_name@,
                       t,
-                      own(ed.edge.verifying_key, ra.signing_key.spec_vk())))
+                      own(ed.edge.verifying_key, ra.signing_key.spec_vk()))
+          // removing a reference re-dates and re-signs its SOURCE ROW (DeletionQuery.updated_nodes): the caller must hold the right
+          // to change that row (own-rows right when it authored the row, all-rows right otherwise) at the date signed for the row
+          && spec_can(ra.rooms@[ed.room_id->Some_0], vk_of(ra), ed.src_name@,
+                      ed.date,
+                      own(ed.src_author, ra.signing_key.spec_vk())))
 }
 /// every deletion record appended by this call is signed by the caller, dated `t`, and names a room of some row of the request
 pub closed spec fn node_log_ok(ra: RoomAuthorisations, e: NodeDeletionEntry, t: i64) -> bool {
@@ -413,7 +428,7 @@ pub closed spec fn deletion_ok(ra: RoomAuthorisations, old_q: DeletionQuery, new
 //@ spec
         requires rooms_wf(*self),
         ensures
-            // [deletion_needs_right]{C01,C12} Ok only if no system entity is named and, for some validation date t, every row and reference of a room may be deleted by the caller (own rows: own-rows right at the preparation date; foreign rows: all-rows right at t) and every record produced is signed by the caller and dated t
+            // [deletion_needs_right]{C01,C12} Ok only if no system entity is named and, for some validation date t, every row and reference of a room may be deleted by the caller (own-rows right for what the caller authored, all-rows right otherwise, at t), the source row of every removed reference may be changed by the caller at the date signed for it, and every record produced is signed by the caller and dated t
             r is Ok ==> exists|t: i64| deletion_ok(*self, *old(deletion_query), *final(deletion_query), t),
             // [rewritten_rows_resigned]{C06,C01} every row rewritten by the deletion carries the caller as its stated author (it is re-signed by the caller)
             r is Ok ==> forall|i: int| 0 <= i < final(deletion_query).updated_nodes@.len() ==> (#[trigger] final(deletion_query).updated_nodes@[i]).verifying_key@ == self.signing_key.spec_vk(),
@@ -440,6 +455,15 @@ pub open spec fn mutation_validated(ra: RoomAuthorisations, mq: MutationQuery) -
     forall|i: int| 0 <= i < mq.mutate_entities@.len() ==> entity_validated(ra, #[trigger] mq.mutate_entities@[i])
 }
 
+/// `v.iter().any(f)` (rule E20: the std call is replaced by this stub): std semantics - whether the closure accepts some element
+#[verifier::external_body]
+pub fn vec_any<T, F: Fn(&T) -> bool>(v: &Vec<T>, f: F) -> (r: bool)
+    requires forall|x: &T| #[trigger] f.requires((x,)),
+    ensures
+        r ==> exists|k: int| 0 <= k < v@.len() && f.ensures((&#[trigger] v@[k],), true),
+        !r ==> forall|k: int| 0 <= k < v@.len() ==> f.ensures((&#[trigger] v@[k],), false),
+{ unimplemented!() }
+pub open spec fn distinct_rooms(rooms: Seq<Room>) -> bool { forall|i: int, j: int| 0 <= i < j < rooms.len() ==> !((#[trigger] rooms[i]).id =~= (#[trigger] rooms[j]).id) }
 //@ extract src/database/authorisation_service.rs :: impl RoomAuthorisations / fn validate_mutation
 //@ result r
 //@ attr #[verifier::loop_isolation(false)]
@@ -448,12 +472,23 @@ pub open spec fn mutation_validated(ra: RoomAuthorisations, mq: MutationQuery) -
             invariant
                 *self == *old(self), verifying_key == vk_of(*self),
                 forall|i: int| 0 <= i < it.index@ ==> entity_validated(*self, *final(#[trigger] it.seq()[i])),
+                distinct_rooms(rooms@),
 //@ insert after-stmt "let verifying_key = self.signing_key.export_verifying_key();"
-        proof { assert(verifying_key@ =~= vk_of(*self)@); }
+        proof { assert(verifying_key@ =~= vk_of(*self)@); assert(<[u8; 16] as PartialEqSpec<[u8; 16]>>::obeys_eq_spec()); }
+//@ rewrite E20 "rooms\.iter\(\)\.any\(" => "vec_any(&rooms, " x1
+//@ closure "|r: &Room|"
+                    ensures b == (r.id =~= room.id)
+//@ loop "for room in rooms_ent" iter itr
+            invariant
+                *self == *old(self), verifying_key == vk_of(*self),
+                forall|i: int| 0 <= i < it.index@ + 1 ==> entity_validated(*self, *final(#[trigger] it.seq()[i])),
+                distinct_rooms(rooms@),
 //@ spec
         requires rooms_wf(*old(self)),
         ensures
             *final(self) == *old(self),
+            // [one_definition_per_room_of_an_accepted_mutation]{C01,C10} the definitions an accepted mutation hands on for the in-memory room table are of pairwise different rooms: each is the stored room changed by ONE entry, so two of the same room could not both be kept
+            r is Ok ==> distinct_rooms(r->Ok_0@),
             // [every_entity_of_an_accepted_mutation_was_validated]{C01} a mutation is accepted only if every one of its top-level entities passed validate_entity_mutation (no entity is skipped, the first refusal refuses the whole mutation); nested entities: see sub_entities_validated
             r is Ok ==> mutation_validated(*old(self), *final(mutation_query)),
 //@ end
@@ -545,6 +580,7 @@ pub proof fn L_local_accept_implies_peer_accept(ra: RoomAuthorisations, peer: Ro
         n.entity_name is Some, n.entity_name->Some_0@ == t.entity@,
         n.old_verifying_key == old_author(t),                                    // same previous version on both sides
         n.old_room_id == (match t.old_node { Some(o) => o.room_id, None => None }),
+        !is_system_entity(t.entity@),                                            // a data row: validate_entity_mutation's no_direct_authorisation_write, and rooms go through validate_room_mutation
     ensures
         spec_validate_node(peer, n),
 {
@@ -601,6 +637,10 @@ pub struct AuthorisationService { x: u8 }
 pub uninterp spec fn edge_source_row_in_room(e: Edge, room: Room) -> bool;
 pub uninterp spec fn nondet(k: int) -> bool;
 
+/// C02 for a reference received from a peer (the references of room, group, right and user entries change only through a room definition: C07)
+pub closed spec fn edge_ok(room: Room, edge: Edge, entity_name: Seq<char>) -> bool {
+    !is_system_entity(entity_name) && spec_can(room, edge.verifying_key, entity_name, edge.cdate, RightType::MutateSelf)
+}
 //@ extract src/database/authorisation_service.rs :: impl AuthorisationService / fn process_message as AuthorisationService::add_edges_body
 //@ lift-loop "for (edge, entity_name) in edges" :: fn add_edges_body(room: &Room, edge: Edge, entity_name: String, valid_edges: &mut Vec<Edge>, invalid: &mut Vec<Uid>)
 //@ insert before-stmt "valid_edges.push(edge)"
@@ -610,9 +650,9 @@ pub uninterp spec fn nondet(k: int) -> bool;
                         }
 //@ spec
         ensures
-            // [edge_kept_iff_author_entitled]{C02,C12} a reference received from a peer is forwarded to the writer exactly when the synchronised room grants its author the own-rows right on the source entity at the reference's creation date; otherwise its source id is reported as rejected
-            final(valid_edges)@ == (if spec_can(*room, edge.verifying_key, entity_name@, edge.cdate, RightType::MutateSelf) { old(valid_edges)@.push(edge) } else { old(valid_edges)@ }),
-            final(invalid)@ == (if spec_can(*room, edge.verifying_key, entity_name@, edge.cdate, RightType::MutateSelf) { old(invalid)@ } else { old(invalid)@.push(edge.src) }),
+            // [edge_kept_iff_author_entitled]{C02,C12} a reference received from a peer is forwarded to the writer exactly when its source entity is not one of the entities that define a room and the synchronised room grants its author the own-rows right on the source entity at the reference's creation date; otherwise its source id is reported as rejected
+            final(valid_edges)@ == (if edge_ok(*room, edge, entity_name@) { old(valid_edges)@.push(edge) } else { old(valid_edges)@ }),
+            final(invalid)@ == (if edge_ok(*room, edge, entity_name@) { old(invalid)@ } else { old(invalid)@.push(edge.src) }),
 //@ end
 
 //@ extract src/database/authorisation_service.rs :: impl AuthorisationService / fn process_message as AuthorisationService::add_nodes_body
